@@ -481,6 +481,20 @@ def NEST(tier='quick'):
         for v in _nest_values(T, 6 if tier == 'quick' else 12):
             yield T, v
 
+    # SETs whose canonical (tag) order differs from the byte order of the member encodings: a constructed
+    # identifier octet sorts after a primitive one of a higher tag number
+    order_sets = [
+        ('SET', (('a', E(0, INT), 'R', None), ('b', I(1, INT), 'R', None))),
+        ('SET', (('s', ('SEQ', (('i', INT, 'R', None),)), 'R', None), ('t', STR('IA5String'), 'R', None))),
+        ('SET', (('s', ('SETOF', INT), 'R', None), ('p', STR('PrintableString'), 'O', None), ('u', STR('UTCTime'), 'R', None))),
+        ('SET', (('a', E(5, OCTS), 'R', None), ('b', I(6, BOOL), 'R', None), ('c', E(7, INT), 'O', None))),
+        ('SEQ', (('w', ('SET', (('x', E(2, BOOL), 'R', None), ('y', I(3, OCTS), 'R', None))), 'R', None), ('z', INT, 'O', None))),
+    ]
+    for T in order_sets:
+        assert M.legal(T), T
+        for v in _nest_values(T, 6 if tier == 'quick' else 12):
+            yield T, v
+
     # DEFAULT components of record type whose members are all OPTIONAL/DEFAULT: non-empty default vs. empty value etc.
     allopt = ('SEQ', (('a', INT, 'O', None), ('b', OCTS, 'O', None)))
     alldef = ('SET', (('a', INT, 'D', 5), ('b', I(1, BOOL), 'O', None)))
